@@ -27,6 +27,17 @@ def ref_under_union(t, under=False):
     return False
 
 
+def named_inter_member(t):
+    """syntactic projection: is there an intersection one of whose members is a named reference?"""
+    if isinstance(t, dict):
+        if t.get("t") == "inter" and any(isinstance(m, dict) and m.get("t") in ("ref", "app") for m in t.get("ms", [])):
+            return True
+        return any(named_inter_member(v) for v in t.values())
+    if isinstance(t, list):
+        return any(named_inter_member(v) for v in t)
+    return False
+
+
 def vec(o):
     return "".join(p["val"][0] for p in o["probes"]) + "|" + "".join(p["vals"][0] for p in o["probes"])
 
@@ -74,6 +85,7 @@ def run(prop, tier):
         o1 = obs1.get(i)
         rec = {"id": i, "outcome": c["_comp"]["outcome"] if (o1 is None or o1["load"] == "ok") else "load-failed",
                "refunder": ref_under_union(c["ty"]) or any(ref_under_union(d.get("ty", {})) for d in c["env"]),
+               "namedinter": named_inter_member(c["ty"]) or any(named_inter_member(d.get("ty", {})) for d in c["env"]),
                "tploneof": '"p": "oneof"' in json.dumps(c["ty"]) or '"p": "oneof"' in json.dumps(c["env"]), "desc1ok": False, "desc1": "", "decls": [], "vec1": "", "h1": "", "outcome2": "none", "vec2": "", "h2": "", "desc2": ""}
         if o1 is not None and o1["load"] == "ok":
             rec["desc1ok"] = o1["describe"]["ok"]
